@@ -482,23 +482,40 @@ theorem llLoop_steps (skip : Bool) : ∀ (rest : List PlaylistView) (pl : Playli
           rw [this]
           simpa using c
 
-theorem llLoop_not_eos (skip : Bool) : ∀ (rest : List PlaylistView) (pl : PlaylistView),
-    (llLoop skip pl rest).2 ≠ .eos := by
+/-- closed form of how the Low-Latency loop ends: it runs until the first reloaded playlist
+    without a preload hint (or until the origin stops answering) -/
+theorem llLoop_outcome (skip : Bool) : ∀ (rest : List PlaylistView) (pl : PlaylistView),
+    pl.hint.isSome = true →
+    (llLoop skip pl rest).2 =
+      (match rest.find? (fun p => p.hint.isNone) with
+       | none => .playlistFetch
+       | some p => if llEndOfStream p.endlist then .eos else .hintDisappeared) ∧
+    (llLoop skip pl rest).1.length =
+      2 * ((match rest.findIdx? (fun p => p.hint.isNone) with | none => rest.length | some k => k) + 1) := by
   intro rest
   induction rest with
   | nil =>
-    intro pl
+    intro pl hh
     rw [llLoop]
-    cases pl.hint <;> simp
+    cases h : pl.hint with
+    | none => simp [h] at hh
+    | some x => simp
   | cons pl' rest' ih =>
-    intro pl
+    intro pl hh
     rw [llLoop]
-    cases pl.hint with
-    | none => simp
-    | some h =>
+    cases h : pl.hint with
+    | none => simp [h] at hh
+    | some x =>
       cases h' : pl'.hint with
-      | none => simp [h']
-      | some h2 => simpa [h'] using ih pl'
+      | none =>
+        simp [List.find?_cons, List.findIdx?_cons, h']
+      | some h2 =>
+        have := ih pl' (by simp [h'])
+        simp only [List.find?_cons, List.findIdx?_cons, h', Option.isNone_some]
+        refine ⟨by simpa using this.1, ?_⟩
+        have h2 := this.2
+        cases hf : rest'.findIdx? (fun p => p.hint.isNone) <;>
+          simp only [hf] at h2 ⊢ <;> simp [h2] <;> simp +arith
 
 theorem tradLoop_noskip (first : PlaylistView) : ∀ (rest : List PlaylistView) (cur : Option Int) (pl : PlaylistView),
     ∀ r ∈ (tradLoop first cur pl rest).1, r.skip = false := by
@@ -543,6 +560,6 @@ theorem llLoop_ne_panic (skip : Bool) : ∀ (rest : List PlaylistView) (pl : Pla
     | none => simp [h] at hh
     | some x =>
       cases h' : pl'.hint with
-      | none => simp [h']
+      | none => by_cases he : llEndOfStream pl'.endlist = true <;> simp [h', he]
       | some h2 => simpa [h'] using ih pl' (by simp [h'])
 end Hls.Client.Select
